@@ -9,7 +9,9 @@ THEOREMS = ["C11_live_rows_immutable_no_crash", "C11_invariant_reachable", "C11_
             "C11_name_never_recreated", "C11_failed_batch_id_retaken_example", "C11_label_reuse_rejected_example", "C11_label_reuse_across_restart_refuted",
             "C11_ids_fresh_example",
             "C11_crash_leftover_refuted", "C11_l0_reuse_after_restart_refuted", "C11_reclaim_guard_needed", "C11_live_rows_immutable_example",
-            "C11_guards_flush_example"]
+            "C11_guards_flush_example",
+            "C11_index_replaced_atomically", "C11_index_save_installs_new", "C11_index_never_partial",
+            "C11_index_backup_first_refuted", "C11_index_in_place_refuted", "C11_index_save_example"]
 RULE = ("engine histories on one shard (STORE/FLUSH/compaction rounds/restarts, abort() at the flush and compaction "
         "step points); at every quiescent observation the harness records the sha256 of every file of every segment "
         "directory; non-trivial = at least two observations that share a segment id; distinct by (configuration, ops); "
@@ -17,14 +19,14 @@ RULE = ("engine histories on one shard (STORE/FLUSH/compaction rounds/restarts, 
         "live-list-updated step; scenarios: flush racing a compaction hand-over, a stalled file write (FIFO), read faults and "
         "index-replacement faults during a round; oracle clauses: (1) a segment seen twice has identical bytes, (2) live "
         "directories are complete, (3) a published directory stays in the index, (4) nothing published changes inside a "
-        "round, (5) what the index names exists on disk")
+        "round, (5) what the index names exists on disk, (6) inotify: segments.idx, once published, is only ever renamed onto")
 ASSUMPTIONS = c05.ASSUMPTIONS
 TRUSTED = c05.TRUSTED
 CLAIMED = True
 MANIFEST = {
  "level_text": "Theorems over the shard state machine with compaction (Model/Shard.v + Model/Compaction.v), all histories of every label (stores, flush-worker stages, WAL steps, CWrite/CIndex/CLive/CReclaim in any interleaving) from the initial state that contain no crash/restart and satisfy the step guards (the level-0 allocator stays in level 0; a CWrite output id is above level 0 and has no directory; CIndex/CLive only for an existing output directory; CReclaim only for ids that are not live, not listed and not the segment of a queued flush job): once an id is live the row list of its directory is unchanged for as long as it stays live; a step leaves an existing directory unchanged, removes it as a whole (it was neither live nor listed) or is the flush worker appending to the directory of its own unfinished job - an existing directory is never replaced; a directory appears only under an id that has none; the live list and the index only name complete directories (the flush job reached its index entry, or a compaction output written by one CWrite). A whole batch_ok batch from a C05-well-formed state satisfies the guards. Output ids within one process lifetime (former finding SegmentLabelReused, repaired by a19e65f; the flag compaction_ids_fresh_in_lifetime is regenerated from policy.rs and the proofs fail on the unrepaired text): histories with the planning-round starts marked carry the planner's bookkeeping - the index labels at every round start of the lifetime (RESET by a crash/restart label) and the output ids taken in the current round; if every CWrite satisfies batch_ok_fresh w.r.t. that bookkeeping (and the guards hold), every output id differs from every label that was in the index at any round start of the lifetime so far and from every output id taken earlier in the same round (pairwise distinct inside a round), and in a lifetime that starts from the empty store a directory that some step creates either is a flush directory whose name had no directory at any earlier state of the lifetime, or is a compaction output whose name was not listed in the index at any earlier round start - a name published once is never created again before the next restart; the former witness is evaluated: its batch [4;5]->10000 satisfies batch_ok but is rejected by batch_ok_fresh, 10002 is accepted. Limit inside a lifetime (witness, observed on the engine with an injected index-save failure): an output id whose batch did not reach its index entry is not remembered and is handed out again over the leftover, never published directory. Refuted with witnesses: across a restart the remembered labels are gone and a retired output id is handed out a second time (CompactionIdReusedAfterRestart; witness k=4, no level-0 name reused, confirmed on the engine); after a crash following FwMkdir or a partial write, restart makes the incomplete directory live (CrashLeftoverDirectoryBecomesLive); after compaction merged the level-0 segments away, crash + restart seeds the level-0 allocator from the remaining directory names and the name 0 is published again with other rows (L0IdReusedAfterCompactionAndRestart). The model is validated against the engine by trace validation; the engine oracle compares sha256 digests of every segment file between observations.",
  "design_ref": "DESIGN.md \u00a76 C11",
- "level_note": "Trusted: Coq kernel; ExtrOcamlBasic extraction + ocaml/p_shard.ml; the engine harness, tools/engine.py, tools/shardlib.py (trace -> label mapping); hooks under cfg(sneldb_verif). Granularity: a directory is its row list per segment id (files of a type exist iff a row of the type does), not bytes; byte-level immutability is checked by the engine oracle only. Completeness is state-based (no unfinished flush job of that segment), so it is not meaningful after a crash (the job queue is lost) - crash histories are covered by the refutation only. The CReclaim guard against queued flush jobs is necessary in the model (witness C11_reclaim_guard_needed); whether the engine's flush lock excludes that interleaving is not established here. name_never_recreated is stated for the first lifetime (from the empty store); later lifetimes are covered by ids_fresh_in_lifetime only. Index file replacement atomicity (tmp + rename) is not modelled; it is checked on the implementation only (an inotify watcher runs with every history; oracle clause 6)."
+ "level_note": "Trusted: Coq kernel; ExtrOcamlBasic extraction + ocaml/p_shard.ml; the engine harness, tools/engine.py, tools/shardlib.py (trace -> label mapping); hooks under cfg(sneldb_verif). Granularity: a directory is its row list per segment id (files of a type exist iff a row of the type does), not bytes; byte-level immutability is checked by the engine oracle only. Completeness is state-based (no unfinished flush job of that segment), so it is not meaningful after a crash (the job queue is lost) - crash histories are covered by the refutation only. The CReclaim guard against queued flush jobs is necessary in the model (witness C11_reclaim_guard_needed); whether the engine's flush lock excludes that interleaving is not established here. name_never_recreated is stated for the first lifetime (from the empty store); later lifetimes are covered by ids_fresh_in_lifetime only. Index file replacement: the file-system steps of SegmentIndex::save are translated from the source (p25_index_save.py) and proved atomic under crashes in Model/IndexSave.v (rename atomicity and the meaning of the calls are trusted); on the implementation an inotify watcher runs with every history (oracle clause 6)."
 }
 
 
